@@ -440,15 +440,17 @@ def run(ctx):
     for kem, aead, mode in full:
         for first in range(26):
             shards.append([("recv", kem, aead, mode, d_full, False, first)])
-    d_red = 2 if q else 4
+    d_red = 2 if q else 3
     for kem in KEM_CURVE:
         for aead in AEADS:
             for mode in MODES:
                 if q:
                     shards.append([("recv", kem, aead, mode, d_red, True, f) for f in range(14)])
                 else:
+                    # depth 3 on all 60 suites, depth 4 on one mode per (KEM, AEAD) pair (15 suites)
+                    d = 4 if mode == (kem + aead) % 4 else d_red
                     for f in range(14):
-                        shards.append([("recv", kem, aead, mode, d_red, True, f)])
+                        shards.append([("recv", kem, aead, mode, d, True, f)])
     for kem in KEM_CURVE:
         shards.append([("refuse", kem)])
         for aead in AEADS:
@@ -468,7 +470,8 @@ def run(ctx):
         "exhaustive": not a.caps,
         "suites": 60,
         "receiver_history_depth": {"full alphabet (25 events) on %d suites" % len(full): d_full,
-                                   "reduced alphabet (14 events) on all 60 suites": d_red},
+                                   "reduced alphabet (14 events) on all 60 suites": d_red,
+                                   "reduced alphabet on one mode per (KEM, AEAD) pair (15 suites)": d_red if q else 4},
         "conformance": "the reference never drives the sender: it derives key/base_nonce from (skR, enc, info, psk, pkS) and must "
                        "reproduce every ciphertext; every receiver history is run on a fresh real context",
     })
